@@ -330,9 +330,9 @@ func (w *Workload) queryNameByID(qid []byte) (string, bool) {
 			return fmt.Sprintf("dep:%d", id), true
 		}
 	}
-	for _, t := range w.specTypes {
-		if eqBytes(QueryID(QueryDataOf(w.customQuery(t))), qid) {
-			return w.customQuery(t), true
+	for _, sp := range w.wordSpecs("") {
+		if eqBytes(QueryID(QueryDataOf(w.customQuery(sp.Type))), qid) {
+			return w.customQuery(sp.Type), true
 		}
 	}
 	return "", false
@@ -352,6 +352,23 @@ func (w *Workload) opProposeDispute(h int64) (*Intent, bool) {
 	name, ok := w.queryNameByID(ri.QueryID)
 	if !ok {
 		return nil, false
+	}
+	if w.g.Avoid {
+		// known finding: backers moved their stake between report and dispute
+		if snap, err := w.v.n.App.ReporterKeeper.Report.Get(w.v.ctx, collJoinReport(ri.QueryID, ri.Reporter, ri.Rep.BlockNumber)); err == nil {
+			for _, t := range snap.TokenOrigins {
+				if w.movedStake[string(t.DelegatorAddress)] {
+					return nil, false
+				}
+			}
+		}
+		// known finding: a report that an earlier dispute already took stake for is disputed again
+		for _, d := range w.v.Disputes() {
+			e := d.D.InitialEvidence
+			if e.Reporter == ri.Rep.Reporter && e.BlockNumber == ri.Rep.BlockNumber && eqBytes(e.QueryId, ri.QueryID) {
+				return nil, false
+			}
+		}
 	}
 	rs := w.reportSpecOf(ri)
 	rs.Q = name
@@ -401,7 +418,7 @@ func (w *Workload) opProposeDispute(h int64) (*Intent, bool) {
 	case 3:
 		fee.SetInt64(r.Range(1, 20_000)) // around the 10 000 minimum
 	}
-	fromBond := r.Chance(0.25)
+	fromBond := r.Chance(0.25) && !w.g.Avoid // known finding: fee paid from stake is short by truncation units
 	in := w.newIntent(a, MsgSpec{K: "propose_dispute", Rep: rs, E: cat, N: fee.String(), B: fromBond})
 	in.Note = note
 	return in, true
@@ -449,7 +466,7 @@ func (w *Workload) opAddFee(h int64) (*Intent, bool) {
 			}
 		}
 	}
-	return w.newIntent(a, MsgSpec{K: "add_fee", U: d.D.DisputeId, N: amt.String(), B: r.Chance(0.2)}), true
+	return w.newIntent(a, MsgSpec{K: "add_fee", U: d.D.DisputeId, N: amt.String(), B: r.Chance(0.2) && !w.g.Avoid}), true
 }
 
 func (w *Workload) opVote(h int64) (*Intent, bool) {
@@ -763,19 +780,53 @@ func (w *Workload) opCancelUnbonding(h int64) (*Intent, bool) {
 	return nil, false
 }
 
-// opTieReport: reporters with equal power report different values on a weighted-mode query (C01 tie rule).
-func (w *Workload) opTieReport(h int64) (*Intent, bool) {
-	reps := w.v.Reporters()
-	if len(reps) < 2 {
-		return nil, false
+// wordSpecs returns registered custom specs whose response type is one 32-byte word.
+func (w *Workload) wordSpecs(method string) []SpecInfo {
+	var out []SpecInfo
+	for _, sp := range w.v.Specs() {
+		if sp.Type == "spotprice" || sp.Type == "trbbridge" {
+			continue
+		}
+		switch sp.Spec.ResponseValueType {
+		case "uint256", "bytes32", "uint8", "int256":
+		default:
+			continue
+		}
+		if method == "" || sp.Spec.AggregationMethod == method {
+			out = append(out, sp)
+		}
 	}
-	// use a deposit query (weighted-mode at genesis) and alternate between two values
-	id := uint64(7)
-	q := fmt.Sprintf("dep:%d", id)
+	return out
+}
+
+// opTieReport: reporters report one of two values on a weighted-mode query, so that with equal powers
+// exact ties occur (C01 tie rule, C06 mode definition). Tips the query when no round is open.
+func (w *Workload) opTieReport(h int64) (*Intent, bool) {
+	specs := w.wordSpecs("weighted-mode")
+	if len(specs) == 0 {
+		return w.opRegisterSpec(h)
+	}
+	sp := Pick(w.r, specs)
+	q := w.customQuery(sp.Type)
+	qid := QueryID(QueryDataOf(q))
+	open := false
+	for _, qi := range w.v.Queries() {
+		if eqBytes(qi.QueryID, qid) && qi.Meta.Expiration >= uint64(h) && qi.Meta.Amount.IsPositive() {
+			open = true
+		}
+	}
+	if !open {
+		a, ok := w.freeActor(false)
+		if !ok {
+			return nil, false
+		}
+		return w.newIntent(a, MsgSpec{K: "tip", Q: q, N: fmt.Sprint(w.r.Range(1000, 5_000_000))}), true
+	}
+	reps := w.v.Reporters()
 	sort.Slice(reps, func(i, j int) bool { return reps[i].Actor < reps[j].Actor })
 	for _, i := range w.r.Perm(len(reps)) {
 		if w.usable(reps[i].Actor) {
-			return w.newIntent(reps[i].Actor, MsgSpec{K: "submit_value", Q: q, V: w.depositValueFor(id, i%2)}), true
+			return w.newIntent(reps[i].Actor, MsgSpec{K: "submit_value", Q: q, V: fmt.Sprintf("%064x", 1+i%2)}), true
 		}
 	}
 	return nil, false
